@@ -33,6 +33,9 @@ ASSUMPTIONS = [
     "are not used as joiners (C06 known finding).",
     "The empty joiner is only used between compact spellings (symbol, "
     "slash, bare, fraction).",
+    "'of' / 'of the' butted against the preceding component is only used "
+    "after the symbol spelling (after '/4' or '4' the library requires a "
+    "word boundary, so 'NE/4of' is not an aliquot at all).",
 ]
 MIN_NONTRIVIAL = {'quick': 15000, 'thorough': 300000}
 REQUIRED_MONITORS = ['boundary:Tract', 'fixed-point', 'unparsed-pp_desc',
@@ -310,6 +313,12 @@ def run_shard(shard, ctx):
                     c = chain[i]
                     spellings[i] = (rng.choice([c, c, c.lower(), c.title()]),
                                     'plain-after-half')
+        for i in range(n - 1):
+            # 'of' / 'of the' butted against a component written with the
+            # fraction symbol ('NE¼of the NW¼'): the library's remover of
+            # intervening words provides for it.
+            if spellings[i][1] == 'sym' and rng.random() < 0.12:
+                joiners[i] = rng.choice(['of ', 'of the ', 'ofthe '])
         check_chain(chain, spellings, joiners, cfg, ctx, rep, pytrs)
         if rng.random() < 0.3:
             head, tail = rng.choice(CONTEXTS)
